@@ -71,6 +71,8 @@ REQUIRE = {
     "vector_solves_bitwise": 4,
     "slab_objects": 2,
     "second_opinion_checks": 40,
+    "objects_with_every_axis_at_least_32_cells_not_square": 8,
+    "right_hand_sides_of_extreme_magnitude": 100,
 }
 # 16 workers x 16 BLAS threads thrash; results do not depend on the BLAS thread count being small
 BLAS_ENV = {"OPENBLAS_NUM_THREADS": "2", "OMP_NUM_THREADS": "2", "MKL_NUM_THREADS": "2"}
@@ -112,6 +114,14 @@ def _shape(rng, d, hi, k, idx):
         s = [int(rng.integers(2, 7)) for _ in range(d)]
         s[int(rng.integers(d))] = int(rng.integers(49, 65))
         return tuple(s), "long-axis"
+    if k == 4:
+        # EVERY axis at least 32 cells and not all equal (33..44 per axis; 2-D up to 60): a size-dependent fast path that needs all
+        # directions to be large only exists here, and an ny/nx mix-up in it is invisible on square grids
+        top = 61 if d == 2 else 45
+        while True:
+            s = tuple(int(x) for x in rng.integers(32, top, size=d))
+            if len(set(s)) > 1:
+                return s, "all-axes>=32"
     if k == 2:  # at the upper end of the size range
         s = tuple(int(x) for x in rng.integers(max(2, hi - 6), hi + 1, size=d))
         return s, "large"
@@ -241,8 +251,16 @@ def run_shard(sh, rec):
                 return None
             return out
 
+        if scls == "all-axes>=32":
+            rec.count("objects_with_every_axis_at_least_32_cells_not_square")
         for kind in KINDS:
             f, info = _rhs(rng, shape, kind, real_t)
+            if kind != "zero" and rng.random() < 0.4:
+                # the solver is linear: right-hand sides of very small / very large magnitude (dimensional units) are ordinary inputs
+                e10 = int(rng.choice([-13, -12, -9, -8, 6, 9]))
+                f = (f * real_t(10.0 ** e10)).astype(real_t)
+                info["scaled_by"] = f"1e{e10}"
+                rec.count("right_hand_sides_of_extreme_magnitude")
             u = solve(f)
             if u is None:
                 rec.case(None)
